@@ -6,6 +6,7 @@ import (
 	"encoding/json"
 	"fmt"
 	"math"
+	"runtime"
 	"strings"
 	"sync"
 	"time"
@@ -184,10 +185,18 @@ func runC03(r *core.Run) {
 	{
 		fromFirst := strings.Contains(r.Variant, "xyzfirst")
 		var wg sync.WaitGroup
+		stagger := strings.Contains(r.Variant, "stagger")
+		start := make(chan struct{})
 		for g := 0; g < 8; g++ {
 			wg.Add(1)
 			go func(g int) {
 				defer wg.Done()
+				<-start
+				if stagger {
+					for spin := 0; spin < g*1500; spin++ {
+						runtime.Gosched()
+					}
+				}
 				defer func() {
 					if p := recover(); p != nil {
 						r.Violate("first-use", "panic", fmt.Sprintf("first XYZ conversion panicked: %v", p), c03Case{Kind: "first-use"})
@@ -221,8 +230,12 @@ func runC03(r *core.Run) {
 				}
 			}(g)
 		}
+		close(start)
 		wg.Wait()
 		r.AddEvals(8 * 8)
+		if isBurst(r.Variant) {
+			return
+		}
 	}
 	for _, s := range libSpaces {
 		vs, mc := c03Static(s)
@@ -392,7 +405,7 @@ func runC03(r *core.Run) {
 		}
 	}
 	if r.Variant == "" {
-		for _, v := range []string{"xyzfirst", "xyzfirst+rev@2", "rev@1"} {
+		for _, v := range append([]string{"xyzfirst", "xyzfirst+rev@2", "rev@1", "burst+xyzfirst@4", "burst+xyzfirst+stagger@8"}, burstVariants...) {
 			r.RunVariantChild(v, 10*time.Minute, false)
 		}
 		r.Obs("fresh_process_variants", []string{"xyzfirst", "xyzfirst+rev@2", "rev@1"})
